@@ -707,6 +707,23 @@ fn family_convert() {
     }
     wrong_kind!(bool, Value::Bool(_)); wrong_kind!(f64, Value::Float(_)); wrong_kind!(String, Value::String(_)); wrong_kind!(Decimal, Value::Decimal(_));
     wrong_kind!(DateTime<Utc>, Value::DateTime(_)); wrong_kind!(TimeDelta, Value::Duration(_)); wrong_kind!(i128, Value::Int(_));
+    // collection targets: only Value::Vec / Value::Map convert; any other kind is UnexpectedValueType carrying the same value
+    macro_rules! wrong_kind_coll {
+        ($t:ty, $pat:pat, $id:expr) => {{
+            for other in pool() {
+                rep.cases += 1;
+                let own = matches!(other, $pat);
+                match (<$t>::try_from(other.clone()), own) {
+                    (_, true) => {}
+                    (Err(reval::Error::UnexpectedValueType(v, _)), false) if same_value(&v, &other) => {}
+                    (r, _) => rep.fail(&["C17"], $id, &format!("{}::try_from({other})", stringify!($t)), &format!("{:?}", r.map(|_| "Ok(..)")), "Err(UnexpectedValueType(the same value, _))"),
+                }
+            }
+        }};
+    }
+    wrong_kind_coll!(Vec<i64>, Value::Vec(_), "try_vec.wrong_kind");
+    wrong_kind_coll!(BTreeMap<String, Value>, Value::Map(_), "try_btree_value.wrong_kind"); wrong_kind_coll!(std::collections::HashMap<String, Value>, Value::Map(_), "try_hash_value.wrong_kind");
+    wrong_kind_coll!(BTreeMap<String, i64>, Value::Map(_), "try_btree.wrong_kind"); wrong_kind_coll!(std::collections::HashMap<String, i64>, Value::Map(_), "try_hash.wrong_kind");
     // u128 needs care: as i128 of MAX wraps
     for b in [0i128, 1, -1, i128::MAX, i128::MIN] {
         rep.cases += 1;
